@@ -186,6 +186,13 @@ def eval_c10_state(s, lk, stored_before):
 
 
 def fingerprint(s):
+    try:
+        return _fingerprint(s)
+    except Exception as e:
+        return 'raises:%s:%s' % (type(e).__name__, str(e)[:60])
+
+
+def _fingerprint(s):
     h = hashlib.sha1()
     for k in ('shell_n', 'shell_n_sample', 'shell_n_eff', 'shell_log_l', 'shell_log_v'):
         h.update(np.ascontiguousarray(getattr(s, k)).tobytes())
@@ -199,36 +206,88 @@ def fingerprint(s):
 
 # ------------------------------------------------------------------------------------------ one history
 
+def inplace_prior(x):
+    """a prior that overwrites its argument (unit cube -> [-2, 2)); allowed by the API, the sampler must pass a copy"""
+    x *= 4.0
+    x -= 2.0
+    return x
+
+
+class PhysLikelihood(runs.Likelihood):
+    """likelihood defined on the physical parameters of `inplace_prior`"""
+
+    def one(self, x):
+        u = (np.asarray(x, dtype=float) + 2.0) / 4.0
+        ll = runs.logl_value(self.kind, u)
+        serial = self.offset + len(self.calls)
+        self.calls.append((np.asarray(x, dtype=float).tobytes(), ll))
+        return ll if self.blob is None else (ll, np.int64(serial))
+
+
 def run_history(spec):
-    """spec: dict(make=kwargs for runs.make_sampler, script=[('run', kwargs) | ('discard', bool) | ('toggle2',)])"""
+    """spec: dict(make=kwargs for runs.make_sampler (+ optional prior_kind, file), script=[('run', kwargs) | ('discard', b)
+    | ('toggle2',) | ('resume',)]).  The first in-memory segment is recorded for the Lean replay (identity prior only);
+    the properties' own observables are evaluated at every operation boundary of every segment."""
     t0 = _time.time()
-    s, lk = runs.make_sampler(**spec['make'])
-    rec = corerec.Recorder(s, lk)
+    mk = dict(spec['make'])
+    prior_kind = mk.pop('prior_kind', None)
+    use_file = mk.pop('file', False) or any(st[0] == 'resume' for st in spec['script'])
+    tmp = common.scratch_dir('nvcore') if use_file else None
+    ck = os.path.join(tmp, 'ck.h5') if use_file else None
+    try:
+        return _run_history(spec, mk, prior_kind, ck, t0)
+    finally:
+        if tmp:
+            import shutil
+            shutil.rmtree(tmp, ignore_errors=True)
+
+
+def _make(mk, prior_kind, ck, resume):
+    kw = dict(mk)
+    if ck:
+        kw.update(filepath=ck, resume=resume)
+    if prior_kind == 'inplace':
+        s, lk = runs.make_sampler(prior=inplace_prior, **kw)
+        lk2 = PhysLikelihood(lk.kind, blob=lk.blob, vectorized=lk.vectorized)
+        s.likelihood = lk2 if not hasattr(s.likelihood, 'func') else __import__('functools').partial(lk2)
+        return s, lk2
+    return runs.make_sampler(**kw)
+
+
+def _run_history(spec, mk, prior_kind, ck, t0):
+    s, lk = _make(mk, prior_kind, ck, False)
+    replay = prior_kind is None
+    rec = corerec.Recorder(s, lk) if replay else None
     fails = {p: [] for p in ('C01', 'C02', 'C03', 'C10', 'C12')}
-    stats = {'boundaries': 0, 'boundaries_with_transfers': 0, 'max_shells': 0, 'neg_inf_samples': 0, 'returns': []}
-    state = {'prev': None, 'explored_at': None}
+    stats = {'boundaries': 0, 'boundaries_with_transfers': 0, 'max_shells': 0, 'neg_inf_samples': 0, 'returns': [],
+             'shells_removed_at_end_of_exploration': 0, 'resumes': 0}
+    state = {'prev': None, 'iter_evals': [], 'req': None}
+    cur_s = {'s': s, 'lk': lk}
 
     def boundary(tag):
+        s, lk = cur_s['s'], cur_s['lk']
         stats['boundaries'] += 1
         stats['max_shells'] = max(stats['max_shells'], len(s.bounds))
         if len(s.shell_t) and np.any(np.asarray(s.shell_t) == -1):
             stats['boundaries_with_transfers'] += 1
-        ctx = {'boundary': stats['boundaries'], 'after': tag}
-        for key, what, d in eval_c01(s):
-            fails['C01'].append((key, what, dict(d, **ctx)))
-        for key, what, d in eval_c02(s):
-            fails['C02'].append((key, what, dict(d, **ctx)))
-        for key, what, d in eval_c10_state(s, lk, 0):
-            fails['C10'].append((key, what, dict(d, **ctx)))
-        # C12: phase monotone, bounds frozen, append-only after exploration
+        ctx = {'boundary': stats['boundaries'], 'after': tag, 'segment': stats['resumes']}
+        for pid_, fn_ in (('C01', lambda: eval_c01(s)), ('C02', lambda: eval_c02(s)), ('C10', lambda: eval_c10_state(s, lk, 0))):
+            try:
+                for key, what, d in fn_():
+                    fails[pid_].append((key, what, dict(d, **ctx)))
+            except Exception as e:      # an accessor of the real sampler raised on a reachable state
+                fails[pid_].append(('observable-raises:' + type(e).__name__, 'evaluating the observables of %s raised %s: %s' % (
+                    pid_, type(e).__name__, str(e)[:120]), ctx))
         prev = state['prev']
-        cur = {'explored': bool(s.explored), 'bounds': [id(b) for b in s.bounds],
+        if prev is not None and not prev['explored'] and s.explored:
+            stats['shells_removed_at_end_of_exploration'] = prev['n_bounds'] - len(s.bounds)
+        cur = {'explored': bool(s.explored), 'bounds': [id(b) for b in s.bounds], 'n_bounds': len(s.bounds), 'sid': id(s),
                'arrays': [(p.copy(), l.copy(), None if s.blobs is None else s.blobs[i].copy())
                           for i, (p, l) in enumerate(zip(s.points, s.log_l))] if s.explored else None}
         if prev is not None and prev['explored']:
             if not cur['explored']:
                 fails['C12'].append(('exploration-resumed', 'explored went back to False', ctx))
-            if cur['bounds'] != prev['bounds']:
+            if (cur['bounds'] != prev['bounds'] and cur['sid'] == prev['sid']) or cur['n_bounds'] != prev['n_bounds']:
                 fails['C12'].append(('bounds-changed-after-exploration', 'the list of bounds changed after exploration had finished', ctx))
             elif cur['arrays'] is not None and prev['arrays'] is not None:
                 for i, (a, b) in enumerate(zip(prev['arrays'], cur['arrays'])):
@@ -240,72 +299,137 @@ def run_history(spec):
                         break
             if any(len(p) == 0 for p in s.points):
                 fails['C12'].append(('empty-shell-after-exploration', 'a shell without samples exists after exploration', ctx))
+        if s.explored and len(s.shell_end_exp) == len(s.log_l):
+            if state.get('calls_at_explored') is None:
+                state['calls_at_explored'] = len(lk.calls) if (prev is not None and not prev['explored']) else None
+            want = [len(s.log_l[i]) - int(s.shell_end_exp[i]) for i in range(len(s.log_l))] if s._discard_exploration \
+                else [len(x) for x in s.log_l]
+            if list(map(int, s.shell_n)) != want:
+                fails['C12'].append(('discard-view-wrong', 'discard_exploration=%s but shell_n=%r while the shells hold %r samples in that view' % (
+                    s._discard_exploration, list(map(int, s.shell_n))[:8], want[:8]), ctx))
+            n0 = state.get('calls_at_explored')
+            if n0 is not None and prior_kind is None:
+                first = {}
+                for k, (arg, ll) in enumerate(lk.calls):
+                    first.setdefault(arg, k)
+                for i in range(len(s.points)):
+                    late = s.points[i][int(s.shell_end_exp[i]):]
+                    old = [j for j, r in enumerate(late) if first.get(np.ascontiguousarray(r, dtype=float).tobytes(), 10 ** 12) < n0]
+                    if old:
+                        fails['C12'].append(('old-sample-appended-after-exploration', 'shell %d: %d sample(s) stored behind the exploration '
+                                             'split point were evaluated before exploration ended' % (i, len(old)), dict(ctx, shell=i)))
+                        break
         state['prev'] = cur
 
-    # boundaries are observed through the recorder: wrap its state capture
-    orig_abstract = rec.abstract
+    def hook_plain(s, lk):
+        """operation boundaries without a recorder (resumed or non-identity-prior segments)"""
+        import types
+        oab, oas = s.add_bound, s.add_samples
 
-    def abstract_and_check():
-        st = orig_abstract()
-        boundary(rec.ops[-1].split(' ')[0] if rec.ops else '?')
-        return st
-    rec.abstract = abstract_and_check
+        def add_bound(self_, *a, **k):
+            r = oab(*a, **k)
+            boundary('B')
+            return r
+
+        def add_samples(self_, *a, **k):
+            n0 = len(lk.calls)
+            r = oas(*a, **k)
+            state['iter_evals'].append(len(lk.calls) - n0)
+            boundary('S')
+            return r
+        s.add_bound = types.MethodType(add_bound, s)
+        s.add_samples = types.MethodType(add_samples, s)
+
+    if rec is not None:
+        orig_abstract = rec.abstract
+
+        def abstract_and_check():
+            st = orig_abstract()
+            boundary(rec.ops[-1].split(' ')[0] if rec.ops else '?')
+            return st
+        rec.abstract = abstract_and_check
+    else:
+        hook_plain(s, lk)
+
+    def set_discard(b):
+        if rec is not None and cur_s['s'] is s:
+            rec.set_discard(b)
+        else:
+            cur_s['s'].discard_exploration = b
+            boundary('D')
 
     for step in spec['script']:
+        s_, lk_ = cur_s['s'], cur_s['lk']
         if step[0] == 'run':
             kw = dict(step[1])
-            n0 = len(lk.calls)
-            nlike0 = int(s.n_like)
-            ret = s.run(**kw)
-            rec.sync_phase()
+            n0 = len(lk_.calls)
+            nlike0 = int(s_.n_like)
+            ret = s_.run(**kw)
+            if rec is not None and s_ is s:
+                rec.sync_phase()
             stats['returns'].append(bool(ret))
-            # C10: return value, budget, batches
             n_shell = kw.get('n_shell', 1)
             n_eff_t = kw.get('n_eff', 10000)
-            pred = bool(s.explored and np.all(s.shell_n >= n_shell) and s.n_eff >= n_eff_t)
+            pred = bool(s_.explored and np.all(s_.shell_n >= n_shell) and s_.n_eff >= n_eff_t)
             if bool(ret) != pred:
                 fails['C10'].append(('run-return-value-wrong', 'run() returned %r but explored=%r, min shell_n=%r (n_shell=%d), n_eff=%r (target %r)' % (
-                    ret, s.explored, int(np.min(s.shell_n)) if len(s.shell_n) else None, n_shell, float(s.n_eff), n_eff_t), {'run': kw}))
+                    ret, s_.explored, int(np.min(s_.shell_n)) if len(s_.shell_n) else None, n_shell, float(s_.n_eff), n_eff_t), {'run': kw}))
             mx = kw.get('n_like_max', np.inf)
             if np.isfinite(mx):
-                if nlike0 >= mx and len(lk.calls) != n0:
-                    fails['C10'].append(('batch-started-beyond-budget', 'run(n_like_max=%r) evaluated %d points although n_like was already %d' % (mx, len(lk.calls) - n0, nlike0), {'run': kw}))
-                if nlike0 < mx and int(s.n_like) >= mx + s.n_batch:
-                    fails['C10'].append(('budget-exceeded-by-a-batch', 'n_like=%d exceeds n_like_max=%r by a full batch' % (int(s.n_like), mx), {'run': kw}))
-                if not ret and int(s.n_like) < mx and kw.get('timeout', np.inf) == np.inf:
-                    fails['C10'].append(('stopped-below-budget', 'run() returned False with n_like=%d < n_like_max=%r and no timeout' % (int(s.n_like), mx), {'run': kw}))
+                if nlike0 >= mx and len(lk_.calls) != n0:
+                    fails['C10'].append(('batch-started-beyond-budget', 'run(n_like_max=%r) evaluated %d points although n_like was already %d' % (mx, len(lk_.calls) - n0, nlike0), {'run': kw}))
+                if nlike0 < mx and int(s_.n_like) >= mx + s_.n_batch:
+                    fails['C10'].append(('budget-exceeded-by-a-batch', 'n_like=%d exceeds n_like_max=%r by a full batch' % (int(s_.n_like), mx), {'run': kw}))
+                if nlike0 < mx and len(lk_.calls) - n0 >= (mx - nlike0) + s_.n_batch:
+                    fails['C10'].append(('budget-exceeded-by-a-batch', 'run(n_like_max=%r) started at %d and evaluated %d points: a batch was started after the limit had been reached' % (mx, nlike0, len(lk_.calls) - n0), {'run': kw}))
+                if not ret and int(s_.n_like) < mx and kw.get('timeout', np.inf) == np.inf:
+                    fails['C10'].append(('stopped-below-budget', 'run() returned False with n_like=%d < n_like_max=%r and no timeout' % (int(s_.n_like), mx), {'run': kw}))
         elif step[0] == 'discard':
-            rec.set_discard(step[1])
+            set_discard(step[1])
         elif step[0] == 'toggle2':
-            # C12: switching discard on shows exactly the post-exploration samples, switching back restores every bit
-            before = fingerprint(s)
-            d0 = bool(s._discard_exploration)
-            rec.set_discard(not d0)
-            if s.explored and (not d0):
-                vis = [len(s.log_l[i]) - int(s.shell_end_exp[i]) for i in range(len(s.log_l))]
-                if list(map(int, s.shell_n)) != vis:
-                    fails['C12'].append(('discard-view-wrong', 'with discard on shell_n=%r but %r samples were drawn after exploration' % (list(map(int, s.shell_n)), vis), {}))
-            rec.set_discard(d0)
-            if fingerprint(s) != before:
+            before = fingerprint(s_)
+            d0 = bool(s_._discard_exploration)
+            set_discard(not d0)
+            if s_.explored and (not d0):
+                vis = [len(s_.log_l[i]) - int(s_.shell_end_exp[i]) for i in range(len(s_.log_l))]
+                if list(map(int, s_.shell_n)) != vis:
+                    fails['C12'].append(('discard-view-wrong', 'with discard on shell_n=%r but %r samples were drawn after exploration' % (list(map(int, s_.shell_n)), vis), {}))
+            set_discard(d0)
+            if fingerprint(s_) != before:
                 fails['C12'].append(('toggle-does-not-restore', 'switching discard_exploration twice changed a statistic or the posterior', {}))
-    for key, what, d in eval_c03(s, lk):
+        elif step[0] == 'resume':
+            # a new sampler object resumed from the checkpoint file; the call log continues
+            if rec is not None and state['req'] is None:
+                state['req'] = (rec.request(), [o[:120] for o in rec.ops], list(rec.states), list(rec.outs))
+            before = fingerprint(s_) if (s_.bounds and ck and os.path.exists(ck)) else None
+            s2, lk2 = _make(mk, prior_kind, ck, True)
+            lk2.calls = list(lk_.calls)
+            stats['resumes'] += 1
+            hook_plain(s2, lk2)
+            cur_s['s'], cur_s['lk'] = s2, lk2
+            boundary('R')
+    s_, lk_ = cur_s['s'], cur_s['lk']
+    for key, what, d in eval_c03(s_, lk_):
         fails['C03'].append((key, what, d))
-    # C10: one batch per step, support
-    for k, n in enumerate(rec.iter_evals):
-        if n != s.n_batch:
-            fails['C10'].append(('step-not-one-batch', 'step %d evaluated %d points, n_batch=%d' % (k, n, s.n_batch), {'step': k}))
+    evs = (rec.iter_evals if rec is not None else []) + state['iter_evals']
+    for k, n in enumerate(evs):
+        if n != s_.n_batch:
+            fails['C10'].append(('step-not-one-batch', 'step %d evaluated %d points, n_batch=%d' % (k, n, s_.n_batch), {'step': k}))
             break
-    for k, (arg, ll) in enumerate(lk.calls):
-        x = np.frombuffer(arg, dtype=float)
-        if not np.all((x >= 0) & (x < 1)):
-            fails['C10'].append(('evaluated-point-outside-cube', 'likelihood call %d got the unit-cube point %r' % (k, x.tolist()), {'call': k}))
-            break
-    stats['neg_inf_samples'] = int(sum(np.sum(np.isneginf(l)) for l in s.log_l))
-    stats['n_like'] = int(s.n_like)
+    if prior_kind is None:
+        for k, (arg, ll) in enumerate(lk_.calls):
+            x = np.frombuffer(arg, dtype=float)
+            if not np.all((x >= 0) & (x < 1)):
+                fails['C10'].append(('evaluated-point-outside-cube', 'likelihood call %d got the unit-cube point %r' % (k, x.tolist()), {'call': k}))
+                break
+    stats['neg_inf_samples'] = int(sum(np.sum(np.isneginf(l)) for l in s_.log_l))
+    stats['n_like'] = int(s_.n_like)
     stats['wall'] = round(_time.time() - t0, 2)
-    stats['notes'] = rec.notes
-    return {'spec': spec, 'req': rec.request(), 'ops': [o[:120] for o in rec.ops], 'states': rec.states, 'outs': rec.outs,
-            'fails': fails, 'stats': stats}
+    stats['notes'] = rec.notes if rec is not None else []
+    if rec is not None and state['req'] is None:
+        state['req'] = (rec.request(), [o[:120] for o in rec.ops], list(rec.states), list(rec.outs))
+    req, ops, states, outs = state['req'] if state['req'] else (None, [], [], [])
+    return {'spec': spec, 'req': req, 'ops': ops, 'states': states, 'outs': outs, 'fails': fails, 'stats': stats}
 
 
 def _worker(spec):
@@ -341,6 +465,34 @@ def histories(tier, seed):
     add(full, n_live=100, n_batch=40, blob='float', vectorized=True)
     add([('run', dict(n_eff=250))], n_live=80, n_batch=25, n_like_new_bound=400, kind='bimodal', blob='array')
     add([('run', dict(n_eff=150))], n_batch=1, n_live=50, blob='serial', kind='gauss')
+    # exploration ending with emptied shells (plateaus + frequent bounds), exploration discarded
+    add([('run', dict(n_eff=50, discard_exploration=True)), ('toggle2',), ('run', dict(n_eff=80))], kind='gauss', n_live=10, n_batch=1, n_update=1)
+    add([('run', dict(n_eff=60, discard_exploration=True)), ('toggle2',)], kind='gauss', n_live=20, n_batch=5, n_update=2, blob='two')
+    # the switch is set before exploration has finished, then requested again in run()
+    add([('discard', True), ('run', dict(n_eff=200, n_like_max=300, discard_exploration=True)),
+         ('run', dict(n_eff=200, discard_exploration=True)), ('toggle2',)], kind='gauss', n_live=80, n_batch=20)
+    # frequent small bounds (unused transfer candidates remain when exploration ends), then every shell is sampled
+    add([('run', dict(n_eff=100)), ('discard', True), ('run', dict(n_eff=100, n_shell=25)), ('toggle2',)], kind='funnel', n_dim=2,
+        n_live=100, n_batch=10, n_update=10)
+    for j in range(6):   # several seeds: unused transfer candidates at the end of exploration are rare
+        add([('run', dict(n_eff=100)), ('discard', True), ('run', dict(n_eff=100, n_shell=25))], kind='bimodal', n_live=100, n_batch=10,
+            n_update=15, seed=seed + j, blob=None)
+    # resumes from the checkpoint file in exploration (with >= 11 bounds) and in the sampling phase
+    add([('run', dict(n_eff=300, n_like_max=900)), ('resume',), ('run', dict(n_eff=300, n_like_max=1700)), ('resume',),
+         ('run', dict(n_eff=300)), ('resume',), ('toggle2',), ('run', dict(n_eff=450)), ('resume',), ('run', dict(n_eff=500))],
+        kind='gauss', n_live=60, n_batch=20, n_update=30)
+    add([('run', dict(n_eff=200, n_like_max=330)), ('resume',), ('run', dict(n_eff=200, n_like_max=660)), ('resume',),
+         ('run', dict(n_eff=200))], kind='bimodal', n_live=80, n_batch=30, blob='two')
+    # geometry hugging the faces of the cube
+    add([('run', dict(n_eff=300))], kind='ridge_edge', n_live=200, n_batch=50, blob=None)
+    add([('run', dict(n_eff=300))], kind='ridge_edge', n_live=200, n_batch=50, blob=None, seed=seed + 2)
+    add([('run', dict(n_eff=300))], kind='corner', n_live=100, n_batch=50, n_dim=3)
+    # a prior function that overwrites its argument
+    add([('run', dict(n_eff=200)), ('toggle2',)], prior_kind='inplace', n_live=80, n_batch=20, blob='serial')
+    add([('run', dict(n_eff=100))], prior_kind='inplace', n_live=50, n_batch=1, blob=None)
+    # n_shell larger than the batch size, exploration discarded, limits falling while the shells are being filled
+    add([('run', dict(n_eff=50, n_shell=70, discard_exploration=True, n_like_max=m)) for m in range(500, 2300, 45)] +
+        [('run', dict(n_eff=50, n_shell=70, discard_exploration=True))], n_live=80, n_batch=25)
     if tier == 'thorough':
         for k, kind in enumerate(['gauss', 'bimodal', 'funnel', 'halfspace', 'steps', 'wrap']):
             for j in range(6):
@@ -352,12 +504,27 @@ def histories(tier, seed):
 
 def run_all(tier, seed):
     H = histories(tier, seed)
-    with mp.get_context('fork').Pool(min(16, os.cpu_count() or 4)) as pool:
-        res = pool.map(_worker, H, chunksize=1)
-    ok = [r for r in res if 'crash' not in r]
+    limit = 420 if tier == 'quick' else 1500       # seconds per history; a run that does not return is a finding
+    pool = mp.get_context('fork').Pool(min(16, os.cpu_count() or 4))
+    try:
+        pend = [pool.apply_async(_worker, (h,)) for h in H]
+        t_end = _time.time() + limit + 60
+        res = []
+        for h, a in zip(H, pend):
+            try:
+                res.append(a.get(timeout=max(1.0, t_end - _time.time())))
+            except mp.TimeoutError:
+                res.append({'spec': h, 'crash': 'Timeout: the history did not finish within %d s (run() does not return)' % limit,
+                            'trace': ''})
+    finally:
+        pool.terminate()
+    ok = [r for r in res if 'crash' not in r and r.get('req')]
     replies = common.run_driver_parallel([r['req'] for r in ok]) if ok else []
     for r, rep in zip(ok, replies):
         r['dis'], r['inv'] = corerec.compare(corerec_view(r), rep)
+    for r in res:
+        r.setdefault('dis', [])
+        r.setdefault('inv', [])
     return res
 
 
@@ -368,14 +535,34 @@ class corerec_view:
         self.ops, self.states, self.outs = r['ops'], r['states'], r['outs']
 
 
+CRASH_MAP = {'evaluate_likelihood': ('C03', 'C10'), 'run': ('C02', 'C10', 'C12'), 'add_bound': ('C01', 'C10'),
+             'sample_shell': ('C01', 'C10'), 'add_samples': ('C01', 'C03', 'C10'), 'shell_association': ('C01',),
+             'update_shell_info': ('C02',), 'posterior': ('C02', 'C03'), 'log_z': ('C02',), 'n_eff': ('C02',),
+             'discard_exploration': ('C02', 'C12'), 'f_live': ('C02',), 'log_v_live': ('C02',)}
+
+
+def crash_properties(trace):
+    """which properties a crash of the real sampler is reported under: those anchored in the innermost nautilus
+    function of the traceback (a run that does not return: C03 and C10)"""
+    import re
+    frames = re.findall(r'File "[^"]*/nautilus/(?:[\w/]+)\.py", line \d+, in (\w+)', trace)
+    for fn in reversed(frames):
+        if fn in CRASH_MAP:
+            return CRASH_MAP[fn]
+    return ('C03', 'C10')
+
+
 def report(chk, pid, results, inv_names):
     """feed the results of run_all into a Check for property `pid`"""
     total_ops, nontriv, n_dis = 0, 0, 0
     for r in results:
         spec = {'make': r['spec']['make'], 'script': r['spec']['script']}
         if 'crash' in r:
-            chk.fail('sampler-crashes:' + r['crash'].split(':')[0], 'the sampler raised on a valid configuration: ' + r['crash'],
-                     {'input': spec, 'trace': r['trace']})
+            if pid in crash_properties(r.get('trace', '')):
+                chk.fail('sampler-crashes:' + r['crash'].split(':')[0], 'the sampler raised on a valid configuration: ' + r['crash'],
+                         {'input': spec, 'trace': r['trace']})
+            else:
+                chk.notes.append('history skipped (the sampler raised; reported by %s): %s' % ('/'.join(crash_properties(r.get('trace', ''))), r['crash'][:100]))
             continue
         total_ops += len(r['ops'])
         nontriv += r['stats']['boundaries_with_transfers']
